@@ -23,7 +23,8 @@ HOOK_COMMITS = ["39fa7aa verif hook: expose both index page searches (cfg pdb_ve
                 "8676b67 verif hook: read-only value table state / entry access, compress, hash_key (cfg pdb_verif)",
                 "b67f689 verif hook: index walk, raw index entries, hash_key, recover_key_prefix (cfg pdb_verif)",
                 "9f268a7 verif hook: named yield points at the reindex lookup and pipeline hand-over sites (cfg pdb_verif)",
-                "fd82e88 verif hook: read-only btree dump and separator codec (cfg pdb_verif)"]
+                "fd82e88 verif hook: read-only btree dump and separator codec (cfg pdb_verif)",
+                "c97ce3e verif hook: read-only structural dump of index tables, value tables and reindex state (cfg pdb_verif)"]
 NOT_APPLICABLE = {}
 
 PROPS = {
@@ -458,5 +459,39 @@ PROPS = {
                  "exactly one Ok, its recovered content digest = committed content); non-trivial = both Ok and Locked seen"),
         "assumptions": ["A-os: advisory flock semantics of the OS (per open file description; released on close / process death)"],
         "trusted": ["tools/skeleton.py (Pdb/Gen/Order.lean)"],
+    },
+    "C09": {
+        "lean": ["Pdb.Props.C09", "Pdb.Proofs.GenBits"],
+        "harness": [{"cmd": "c09", "quick": 48, "thorough": 600, "timeout": 3000}],
+        "level_text": ("Lean theorems C09_index_inv_preserved / C09_lookup_latest / C09_no_panic / C09_collision_individual over all histories (set, del, "
+                       "reindex batch, enacted drop, reopen/recovery, relaunched growth) of the index-layer model (current table + queue of older tables, "
+                       "pages of 64 entries with the generated bit functions, page search from the C19 model, value slots with 26-byte tails, per-tier "
+                       "free lists); step theorems C09_write_preserves / C09_batch_no_loss / C09_drop_no_loss / C09_growth_recover / "
+                       "C09_growth_redetected for any configuration; C09_lookup_latest_full_false: closed witness that the code before fixes 3f608ba / "
+                       "c9ce868 loses a key. Model tied by differential runs (set/del/get/stat/slots/crashto) and a BTreeMap + prefix oracle with crash "
+                       "images at every growth phase."),
+        "level_note": ("Trusted: Lean kernel; logical-state model (pipeline stages are P1); single-slot values (tier 255 by structural checks only); A-tail; "
+                       "hook verif_dump."),
+        "rule": ("seed%16: directed sse2-neighbour / crash-after-drop / move-into-full-page, multi-batch (>8192 entries), steady workload, else random "
+                 "histories over page-overflow sets sharing 16..18 bits, shared-50-bit classes (<=8), zero partial keys, SSE2-dropped-bit neighbours; "
+                 "crash images at every growth phase; distinct by SHA-1 of ops; non-trivial = growth, batch or >3 records"),
+        "assumptions": ["A-tail: distinct hashed keys differ in bytes 6..32 (generator embeds a unique id)", "<= 49 index bits, < 2^56 slots per tier (AllBounded)",
+                        "full theorems for the fixed code (exact find_entry, grow on move); ExactCur for reindex/no-panic otherwise"],
+        "trusted": ["hook Db::verif_dump / verif_reindex_state (cfg pdb_verif)"],
+    },
+    "C14": {
+        "lean": ["Pdb.Props.C14"],
+        "harness": [{"cmd": "c09", "quick": 48, "thorough": 600, "timeout": 3000}],
+        "level_text": ("Lean theorems: IndexInv / SlotInvAbs / NoLeak preserved over all histories (C14_index_inv_preserved, C14_no_leak), "
+                       "C14_no_misattribution, C14_remove_returns_slot, C14_fill_mark_moves_only_when_no_free_slot, C14_iter_values_exact on the abstract "
+                       "value tables of the index-layer model; the byte-level slot invariant (free list acyclic / in range, chains disjoint, live + free = "
+                       "filled - 1) is C06's SlotInv, the btree invariant C04's TreeInv, the reference-count invariant C10's RcInv. Tied to the code by "
+                       "structural checks on read-only dumps of the real index tables, value tables and free lists after every drain / reopen / recovery, "
+                       "steady insert/remove workloads, and value iteration."),
+        "level_note": ("Trusted: Lean kernel; hook Db::verif_dump; the structural predicates evaluated on dumps are the harness's Rust restatement of the "
+                       "invariants (the executable Bool versions in Lean are not proved sound against the Prop versions)."),
+        "rule": "as C09 plus multipart values and 400-cycle steady workloads; structure checked on hook dumps after every drain / reopen / recovery",
+        "assumptions": ["as C09; byte-level SlotInv is C06, TreeInv C04, RcInv C10"],
+        "trusted": ["hook Db::verif_dump (cfg pdb_verif)"],
     },
 }
